@@ -69,6 +69,24 @@ theorem mem_step2_pair (inp : SelInput) (r0 r1 : Nat) (sol : List Cand) :
 def NoOrphan (vid : Cand → Nat) (c : Cand) (C : List (List Cand)) : Prop :=
   (∃ combo ∈ C, holdsValue vid c combo = true) → ∃ combo ∈ C, usedBy vid c combo = true
 
+/-- when no two candidates are equal by value (e.g. the requests of the vector have pairwise different end points) no
+candidate is ever orphaned -/
+theorem noOrphan_of_injective (vid : Cand → Nat) (hinj : ∀ c c', vid c = vid c' → c = c') (c : Cand)
+    (C : List (List Cand)) : NoOrphan vid c C := by
+  rintro ⟨combo, hc, hold⟩
+  refine ⟨combo, hc, ?_⟩
+  unfold usedBy
+  cases h : combo.find? (fun x => vid x == vid c) with
+  | none =>
+    have hn := List.find?_eq_none.1 h
+    unfold holdsValue at hold
+    obtain ⟨x, hx, hxv⟩ := List.any_eq_true.1 hold
+    exact absurd hxv (hn x hx)
+  | some x =>
+    have hp := List.find?_some h
+    have : x = c := hinj x c (by simpa using hp)
+    simp [this]
+
 /-- with a single synchronisation vector and no orphan, step 3 removes nothing -/
 theorem step3One_single (vid : Cand → Nat) (d : Nat) (combos : List (List Cand)) (concerned : List Nat)
     (hcon : ∀ x ∈ concerned, x = d) (c : Cand) (hno : NoOrphan vid c combos) :
